@@ -678,11 +678,20 @@ func crdtBursts(c *fw.Ctx, idx int) {
 				p := api.PinCid(cids[wr.Intn(3)])
 				p.Name = fmt.Sprintf("w%d-%d", g, k)
 				octx, cancel := context.WithTimeout(ctx, 20*time.Second)
+				t0 := time.Now()
+				blocked := func(what string, err error) {
+					// nothing this single in-memory replica does takes 19 s: a call that only came
+					// back because its caller's deadline passed was stuck (and would be stuck for
+					// good under a context without deadline, as the RPC layer's are)
+					if err != nil && time.Since(t0) > 19*time.Second {
+						c.Violation("C18/crdt/call-stuck-until-the-callers-deadline/"+what, fmt.Sprintf("%s came back after %s with %v (batching %s, shutdown during the run: %v)", what, time.Since(t0).Round(time.Second), err, mode, shutdownAt >= 0), nil)
+					}
+				}
 				switch wr.Intn(6) {
 				case 0, 1:
-					cons.LogPin(octx, p)
+					blocked("LogPin", cons.LogPin(octx, p))
 				case 2:
-					cons.LogUnpin(octx, p)
+					blocked("LogUnpin", cons.LogUnpin(octx, p))
 				case 3:
 					if st, err := cons.State(octx); err == nil {
 						if l, err := st.List(octx); err == nil {
